@@ -19,6 +19,7 @@ PARTS = [
 ]
 
 ASSUME = [
+    'node tier (TestVerifC18Cache): twelve messages of alternating lengths are posted through the real handler of an in-process node (protobuf and JSON); after every one, every earlier entry is read through the durable log store and through raft\'s log cache in front of it (from which lagging followers are served): same bytes, and both decode to the message that was posted',
     'messages: the 9 declared robust.Type values, valid UTF-8 text only (protobuf string fields and JSON are not defined on other bytes); InterestingFor is not part of either encoding; '
     'robust.MessageOffset is 0 in the test binary (the offset is applied by the caller through IdFromRaftIndex, not by the decoder)',
     'raft entries, store level: all readers below package main (GetLog into a fresh and a reused raft.Log, raftlog.FromBytes on the bulk-iterator value); ConvertToProto is exercised on stores written '
@@ -50,8 +51,10 @@ def _build(key, hdir, pkg):
 
 
 def prebuild():
+    import apidrive
     for key, hdir, pkg, _ in PARTS:
         _build(key, hdir, pkg)
+    apidrive.build()
 
 
 COUNT_KEYS = {
@@ -104,6 +107,16 @@ def run(tier):
         ps = sum([r.get('samples') or [] for r in rs], [])
         samples += ['[%s] %s' % (key, s) for s in ps[:3]]
         vlib.log('C18 %s: grid %d, %d comparisons, %d distinct non-trivial, %.1fs' % (key, info['grid_size'], info['evaluations'], info['distinct_nontrivial'], time.time() - tp))
+    # node tier: what the API hands to raft, read back through the log store and through the log cache in front of it
+    if not only:
+        import apidrive
+        rc = vlib.run_workers(apidrive.build(), 'TestVerifC18Cache', 1, env={'GOMAXPROCS': '2'})
+        for r in rc:
+            for v in r.get('violations') or []:
+                if v['sig'] not in bysig:
+                    v = dict(v); v['part'] = 'node'; bysig[v['sig']] = v
+        parts['node'] = {'grid_size': sum(r.get('sequences', 0) for r in rc), 'evaluations': sum(r.get('ops', 0) for r in rc), 'distinct_nontrivial': sum(r.get('ops', 0) for r in rc), 'dims': {'encodings': 2, 'messages': 12}}
+        evaluations += parts['node']['evaluations']
     if failures and not bysig:
         raise failures[0][1]
     cov = {
